@@ -10,6 +10,7 @@ def main():
     engines = []
     extra_na = json.load(open(os.path.join(HERE, "vlib", "not_applicable.json"))) if os.path.exists(os.path.join(HERE, "vlib", "not_applicable.json")) else {}
     claimed = set(json.load(open(os.path.join(HERE, "vlib", "claimed.json"))))
+    tech = json.load(open(os.path.join(HERE, "vlib", "technique.json")))
     for p in props:
         pid = p["id"]
         mp = os.path.join(HERE, "vlib", "props", pid.lower() + ".py")
@@ -27,7 +28,7 @@ def main():
             engine="lean4-proof+correspondence",
             level_claimed=dict(category=cat, text=getattr(mod, "LEVEL_TEXT", mod.EXPLANATION), design_ref="DESIGN.md section 5." + pid),
             level_note=getattr(mod, "LEVEL_NOTE", "Trusted: Lean 4.33 kernel with axioms propext/Classical.choice/Quot.sound only; the translator / correspondence harness under /verif tying the model to /repo's working tree; g++/libstdc++. Modelled rather than verified: see DESIGN.md section 5." + pid + " (Outside the model)."),
-            technique=getattr(mod, "TECHNIQUE", "Lean 4 theorems over an executable model; model tied to the code by translator and/or differential correspondence on every run"),
+            technique=getattr(mod, "TECHNIQUE", None) or tech.get(pid) or ("Lean 4 theorems over an executable model; model tied to the code by translator and/or differential correspondence on every run"),
         ))
     m = dict(
         version=1,
